@@ -122,6 +122,8 @@ pub struct Shared {
     pub verbose: bool,
     /// (query, reply, answered so far)
     replies: Vec<(Vec<u8>, Vec<u8>, usize)>,
+    /// rows of the window the peer shows (24 at first, one more with every window-size signal)
+    window_rows: usize,
     /// deviations are explored only once the terminal object has been constructed
     pub explore: bool,
     pub env_active: bool,
@@ -155,9 +157,20 @@ impl Shared {
                     }
                 }
             }
-            Inject::Winch => unsafe {
-                libc::raise(libc::SIGWINCH);
-            },
+            Inject::Winch => {
+                // the window really changes: one row more with every signal; a size request answered from now on
+                // reports the new size
+                self.window_rows += 1;
+                let rows = self.window_rows;
+                for r in self.replies.iter_mut() {
+                    if r.0 == b"\x1b[18t\x1b[14t" {
+                        r.1 = format!("\x1b[8;{rows};80t\x1b[4;{};800t", rows * 20).into_bytes();
+                    }
+                }
+                unsafe {
+                    libc::raise(libc::SIGWINCH);
+                }
+            }
             Inject::Term => unsafe {
                 libc::raise(libc::SIGTERM);
             },
@@ -563,6 +576,9 @@ pub struct Outcome {
     pub events: Vec<(usize, Result<Option<TerminalEvent>, String>)>,
     pub injected: Vec<(Inject, usize)>,
     pub termios_restored: bool,
+    /// rows of the peer's window at the end, and whether the terminal tracks the size by escape sequences
+    pub final_rows: usize,
+    pub escape_size: bool,
     pub deadlock: bool,
     pub horizon_hit: bool,
     pub hangup: bool,
@@ -692,6 +708,7 @@ pub fn execute(session: &Session, upto: usize, choices: Choices, verbose: bool) 
             vec![]
         })
         .collect(),
+        window_rows: 24,
         explore: false,
         env_active: false,
         in_release: false,
@@ -704,6 +721,8 @@ pub fn execute(session: &Session, upto: usize, choices: Choices, verbose: bool) 
         events: vec![],
         injected: vec![],
         termios_restored: false,
+        final_rows: 24,
+        escape_size: false,
         deadlock: false,
         horizon_hit: false,
         hangup: false,
@@ -978,6 +997,8 @@ pub fn execute(session: &Session, upto: usize, choices: Choices, verbose: bool) 
     outcome.deadlock = s.deadlock;
     outcome.horizon_hit = s.horizon_hit;
     outcome.hangup = s.hangup;
+    outcome.final_rows = s.window_rows;
+    outcome.escape_size = session.probe;
     outcome.log = std::mem::take(&mut s.log);
     outcome.trace = std::mem::take(&mut s.choices.trace);
     Ok(outcome)
@@ -1134,6 +1155,25 @@ pub fn c17_problems(o: &Outcome, expect_events: &dyn Fn(&[u8]) -> Vec<TerminalEv
                     "winch-lost".into(),
                     format!("SIGWINCH raised when {at} polls had completed was never followed by a Resize event (events: {:?})", o.events),
                 ));
+            } else if o.escape_size && !o.hangup {
+                // the window grows by one row with every signal and the terminal learns its size by asking: the last
+                // Resize delivered after the last signal must carry the size the window has now - an older report
+                // that was already on its way does not describe the window after the last change
+                // (signals that arrive while the terminal is being released are owed to nobody)
+                let rows_now = 24 + o.injected.iter().filter(|(i, at)| matches!(i, Inject::Winch) && *at != usize::MAX).count();
+                let last = o.events.iter().rev().find_map(|(_, r)| match r {
+                    Ok(Some(TerminalEvent::Resize(size))) => Some(size.cells.height),
+                    _ => None,
+                });
+                if last != Some(rows_now) {
+                    p.push((
+                        "winch-stale-size".into(),
+                        format!(
+                            "the window was resized {} time(s) and has {} rows now; the last Resize event delivered says {:?} rows: the last window-size signal was not followed by a size the window had after it (events: {:?})",
+                            rows_now - 24, rows_now, last, o.events
+                        ),
+                    ));
+                }
             }
         }
     }
@@ -1462,6 +1502,15 @@ pub fn sessions_c17() -> Vec<Session> {
             name: "escape-size-winch",
             acts: vec![Schedule(inp(b"a")), Poll(None), Poll(Some(5))],
             allowed: vec![(Inject::Winch, 1), (Inject::Wake, 1)],
+            stall_selects: 0,
+            probe: true,
+            kitty: false,
+        },
+        // two window-size signals, the second at any point: the size the application ends up with is the window's
+        Session {
+            name: "escape-size-two-winches",
+            acts: vec![Arrive(Inject::Winch), Poll(Some(0)), Poll(Some(0)), Poll(Some(5)), Poll(Some(0))],
+            allowed: vec![(Inject::Winch, 1)],
             stall_selects: 0,
             probe: true,
             kitty: false,
@@ -2284,6 +2333,8 @@ pub fn conformance_run_on(master: OwnedFd, slave: OwnedFd, session: &Session, pa
         events: vec![],
         injected: vec![],
         termios_restored: false,
+        final_rows: 24,
+        escape_size: false,
         deadlock: false,
         horizon_hit: false,
         hangup: false,
